@@ -13,6 +13,7 @@
 //	call <tid> enq <v> <ctx> | call <tid> deq <ctx> | call <tid> len | call <tid> asslice | call <tid> pause <us>
 //	call <tid> cancel <tid2>      (cancel the context of the call thread tid2 has in flight, now)
 //	go <reps> lin|big|seq|snap
+//	flood <producers> <consumers> <values per producer>      (high-volume exactly-once monitor, see flood.go)
 //
 // <ctx> = none (background; cancelled by the watchdog only when the call cannot proceed)
 //
@@ -391,6 +392,7 @@ func corpus(out *vlib.Out) {
 func generate(tier string, out *vlib.Out) {
 	g := &gen{r: vlib.NewRng(vlib.Seed()), out: out}
 	corpus(out)
+	g.flood(tier)
 	nlin, nbig, nseq, nwake, nstorm, nsnap := 260, 10, 40, 30, 30, 30
 	nwc := 30
 	if tier == "thorough" {
@@ -1036,6 +1038,20 @@ func run(ops []string, out *vlib.Out, st *stats) {
 				st.Calls++
 			}
 			out.Line("%s => ok", line)
+		case "flood":
+			np, nc, n, ok := parseFlood(w)
+			if sc == nil || !ok {
+				out.Line("%s => bad-op", line)
+				continue
+			}
+			st.Scenarios["flood"]++
+			obs, fatal := runFlood(sc.kind, sc.cap, np, nc, n, st)
+			out.Line("%s => %s", line, obs)
+			if fatal {
+				st.Stopped = true
+				st.Distinct = len(st.seen)
+				return
+			}
 		case "go":
 			if sc == nil {
 				out.Line("%s => no-queue", line)
